@@ -12,6 +12,19 @@ fn call(name: &str, text: &str, o: &Opt) -> String {
     format!("{}({}, {})", name, show(text), o.show())
 }
 
+/// turn most line feeds into CRLF; a few stay bare — with the CRLF option a lone '\n' is ordinary
+/// paragraph content (and a lone '\r' too), which a splitter keyed on '\n' alone gets wrong
+fn crlf_mostly(rng: &mut Rng, t: &str) -> String {
+    let mut out = String::new();
+    for c in t.chars() {
+        if c == '\n' && !rng.chance(1, 6) {
+            out.push('\r');
+        }
+        out.push(c);
+    }
+    out
+}
+
 fn kf_class(text: &str, o: &Opt) -> Option<&'static str> {
     // a known-finding class can only explain a failure on a paragraph outside the hypothesis of
     // the Lean theorems `*_safe` (C02/C05): if every paragraph is `SeqSafe` for the configured
@@ -45,7 +58,7 @@ fn wrap_input(rng: &mut Rng, allow_custom: bool) -> (String, Opt) {
     let w = if rng.chance(1, 2) { gen::width_for(rng, &t) } else { gen::small_width(rng) };
     let mut o = gen::options(rng, w);
     if o.crlf {
-        t = t.replace('\n', "\r\n");
+        t = crlf_mostly(rng, &t);
     }
     if allow_custom && rng.chance(1, 6) {
         o.splitter = *rng.pick(&["c1", "c1", "c2", "c3", "c4"]);
@@ -324,7 +337,7 @@ fn c02_input(rng: &mut Rng) -> (String, Opt) {
     let mut o = gen::options(rng, w);
     o.alg = 'f';
     if o.crlf {
-        t = t.replace('\n', "\r\n");
+        t = crlf_mostly(rng, &t);
     }
     (t, o)
 }
@@ -491,7 +504,31 @@ pub fn c08_oracle(ctx: &mut Ctx, t: &str, o: &Opt, lines: &Option<Vec<LineOut>>)
     }
 }
 
+/// options with a `WrapAlgorithm::Custom` function: no model counterpart, the property predicates
+/// decide (the crate's own code around the algorithm — indents, line loop, shortcut paths — is
+/// what is exercised)
+fn custom_alg_input(rng: &mut Rng) -> (String, Opt) {
+    let (t, mut o) = wrap_input(rng, false);
+    o.alg = *rng.pick(crate::opt::CUSTOM_ALGS);
+    o.ii = gen::indent(rng);
+    o.si = gen::indent(rng);
+    if rng.chance(1, 3) {
+        o.width = t.len() + rng.below(2);
+    }
+    (t, o)
+}
+
 pub fn c08(ctx: &mut Ctx) {
+    for _ in 0..ctx.n(6000, 120_000) {
+        let (t, o) = custom_alg_input(&mut ctx.rng);
+        let (lines, _) = real_wrap(&t, &o);
+        ctx.count("custom_algorithm_cases");
+        if lines.is_none() {
+            ctx.fail("returns normally", format!("{} panicked", call("wrap", &t, &o)), None);
+            continue;
+        }
+        c08_oracle(ctx, &t, &o, &lines);
+    }
     small_scope_wrap(ctx, |ctx, t, o| {
         let (op, lines) = op_wrap(t, o);
         ctx.case(op, call("wrap", t, o));
@@ -527,14 +564,34 @@ fn strs(v: &Option<Vec<LineOut>>) -> Option<Vec<String>> {
 }
 
 pub fn c09(ctx: &mut Ctx) {
+    // fill = wrap's lines joined, also around a custom wrap algorithm
+    for _ in 0..ctx.n(6000, 120_000) {
+        let (t, mut o) = custom_alg_input(&mut ctx.rng);
+        if ctx.rng.chance(1, 2) {
+            o.ii.clear();
+        }
+        let (lines, _) = real_wrap(&t, &o);
+        let f = quiet(|| textwrap::fill(&t, o.to_options()));
+        ctx.count("custom_algorithm_cases");
+        match (strs(&lines), f) {
+            (Some(ls), Some(f)) => {
+                if ls.join(o.ending()) != f {
+                    ctx.fail("fill = wrap's lines joined by the line ending", format!("{} = {}, wrap gives {:?}", call("fill", &t, &o), show(&f), ls), None);
+                } else {
+                    ctx.oracle_ok();
+                }
+            }
+            _ => ctx.fail("returns normally", format!("{} panicked", call("fill", &t, &o)), None),
+        }
+    }
     for _ in 0..ctx.n(25000, 500_000) {
         let (a, o) = wrap_input(&mut ctx.rng, false);
         let fl = gen::flavor(&mut ctx.rng);
         let mut b = gen::text(&mut ctx.rng, fl, 2, 6);
         let mut a2 = gen::text(&mut ctx.rng, fl, 2, 4);
         if o.crlf {
-            b = b.replace('\n', "\r\n");
-            a2 = a2.replace('\n', "\r\n");
+            b = crlf_mostly(&mut ctx.rng, &b);
+            a2 = crlf_mostly(&mut ctx.rng, &a2);
         }
         let e = o.ending();
         let ab = format!("{}{}{}", a, e, b);
@@ -794,7 +851,13 @@ const PIND: &[&str] = &["", "", " ", "> ", "- ", "  ", "* ", "# ", "//", ">> ", 
 
 fn c15_case(rng: &mut Rng) -> (String, Opt, String) {
     let n = 1 + rng.below(9);
-    let words: Vec<&str> = (0..n).map(|_| *rng.pick(VOCAB)).collect();
+    // one case in six mixes in words whose display width is not additive over the paragraph
+    // (a bare ESC swallowing the following space, unterminated or coloured sequences): whole-
+    // paragraph measurements then differ from per-word ones
+    let odd = rng.chance(1, 6);
+    let words: Vec<&str> = (0..n)
+        .map(|_| if odd && rng.chance(1, 3) { *rng.pick(&["ab\x1b", "\x1b[1", "x\x1b]0;t", "\x1b[31mred\x1b[0m", "q\x1b"]) } else { *rng.pick(VOCAB) })
+        .collect();
     let p = words.join(" ");
     let mut o = Opt::new(rng.below(14));
     o.bw = false;
